@@ -307,6 +307,7 @@ func loopsBack(b *ssa.BasicBlock) bool {
 
 func runC07(c *Ctx) {
 	ruleEOFOnlyAtEnd(c)
+	ruleDotStructure(c) // error exits keep the automaton state: a reader that has failed does not report end-of-file next time
 	rulePipeClose(c)
 	ruleNoPositiveAfterShortCopy(c)
 	// a chunk the server threw away for exceeding the size limit ends the transfer: otherwise a later "BDAT 0 LAST"
